@@ -1,5 +1,6 @@
 import NomtModel.Api.SplitCanon
 import NomtModel.Api.SplitRoot
+import NomtModel.Api.SplitPending2
 import NomtModel.Api.SplitExample
 /-!
 # C13 (topic: work splitting) — how one merkle update is split across the commit workers
@@ -119,6 +120,30 @@ theorem T13_5_root_composition (H : Hasher Node VH) (hs : H.Sound) (L : Nat) (ol
     composeRoot H L old ops pend = nodeAt H L 0 (kvApply old (subtrieOps ops)) :=
   composeRoot_spec H hs L old hlen hsorted ops hopslen hops pend hnode hsub hcover hdepth hL
 
+/-- T13.6 **the root does not depend on the number of commit workers.**  For EVERY worker count `n ∈ 1…64`, every
+sorted prior state and every key-sorted batch of `L`-bit keys (`L ≥ 6`): run the `n` workers (T13.3: no panic),
+collect what they push to `root_page_pending` — the deferred root-page terminals of their owned batches and the roots
+of the child pages they wrote, the latter as specified (`specNode` = `nodeAt` of the updated set, what the
+`croots` line of the differential compares with the real page walkers) — and let the last worker replay the list on
+the root page: the result is `nodeAt` of `kvApply view writes`, the root of C02 / T2.1, the same for all `n`.
+(Uses T13.4: every batch has an owner, so every written key lies below an entry; sorted keys: a batch holds ALL
+writes below its terminal; `range_spec`: an owned batch deeper than the root page lies in the worker's own region.) -/
+theorem T13_6_root_independent_of_workers (H : Hasher Node VH) (hs : H.Sound) (L : Nat) (view : KVL VH)
+    (hvlen : ∀ kv ∈ view, kv.1.length = L) (hsorted : view.Pairwise KeyLt) (n : Nat) (ops : List (Op VH))
+    (hlen : ∀ o ∈ ops, o.1.length = L) (hsort : ops.Pairwise KeyLt) (hL : 6 ≤ L) (h1 : 1 ≤ n) (h64 : n ≤ 64) :
+    composeRoot H L view ops
+      (pendingOf (specNode H L view ops) ((runWorkers L n (tpOf (proveSpec H L view)) ops).getD []))
+      = nodeAt H L 0 (kvApply view (subtrieOps ops)) :=
+  root_of_workers H hs L view hvlen hsorted n ops hlen hsort hL h1 h64
+
+/-- T13.6b on a key-sorted list the index range of worker `i` holds only operations whose first six key bits lie in
+the worker's region (so an owned batch below the root page lives in a page the worker has exclusive access to). -/
+theorem T13_6b_range_is_region (L n : Nat) (ops : List (Op VH)) (hlen : ∀ o ∈ ops, o.1.length = L) (hL : 6 ≤ L)
+    (h1 : 1 ≤ n) (h64 : n ≤ 64) (hsort : ops.Pairwise KeyLt) (i : Nat) (hi : i < n) (j : Nat) (o : Op VH)
+    (hj1 : bound L n ops i ≤ j) (hj2 : j < bound L n ops (i+1)) (ho : ops[j]? = some o) :
+    firstChild n i ≤ childOf o.1 ∧ childOf o.1 ≤ lastChild n i :=
+  range_spec L n ops hlen hL h1 h64 hsort i hi j o hj1 hj2 ho
+
 /-! ### the instance of `Api/SplitExample.lean` -/
 open Nomt.Split.Ex
 
@@ -138,5 +163,16 @@ example : pendingOf (fun _ => T.term) bss = [([false], Pend.subtrie 0 2), ([true
       ([true, true, false], Pend.subtrie 3 4)] ∧
     composeRoot TH 8 Ex.view Ex.ops (pendingOf (fun _ => T.term) bss)
       = nodeAt TH 8 0 (kvApply Ex.view (subtrieOps Ex.ops)) := by decide
+
+/-- non-vacuity of T13.6: its hypotheses hold for the instance, for 1, 3 and 64 workers -/
+example : ∀ n ∈ [1, 3, 64], composeRoot TH 8 Ex.view Ex.ops
+      (pendingOf (specNode TH 8 Ex.view Ex.ops) ((runWorkers 8 n (tpOf (proveSpec TH 8 Ex.view)) Ex.ops).getD []))
+      = nodeAt TH 8 0 (kvApply Ex.view (subtrieOps Ex.ops)) := by
+  intro n hn
+  have h : 1 ≤ n ∧ n ≤ 64 := by
+    simp only [List.mem_cons, List.mem_nil_iff, or_false] at hn
+    rcases hn with rfl | rfl | rfl <;> omega
+  exact T13_6_root_independent_of_workers TH TH_sound 8 Ex.view (by decide) (by decide) n Ex.ops (by decide) (by decide)
+    (by decide) h.1 h.2
 
 end Nomt.C13
